@@ -19,6 +19,7 @@ RULE = ("Hypothesis draws a non-singular, well-conditioned operator tree (produc
 ASSUMPTIONS = [
     "tolerance: |logabs - ref| <= tol * max(1, |ref|, n), |sign - ref| <= tol with tol = 1e-8 (f64 trees), 2e-3 (trees containing f32), x100 for Lanczos/Arnoldi paths",
     "inputs are non-singular with cond <~ 1e3 by construction; in-contract refusals (Cholesky/Lanczos on operators not declared PSD/SelfAdjoint) are not failures",
+    "Lanczos/Arnoldi log algorithms are generated only on trees whose every factor is positive definite: cola evaluates tr log factor by factor in real arithmetic, and log of a real factor with negative eigenvalues (e.g. Diagonal(-2)) is outside the real principal branch",
 ]
 AVOID = set()
 
@@ -66,8 +67,16 @@ def cases(draw, tier):
     if sc is not None and tree["k"] != "perm":
         tree = {"k": "scale", "c": {"t": "float", "v": sc}, "side": "l", "ch": [tree]}
     la = g.pick(LOG_ALGS)
+    if la in ("Lanczos", "Arnoldi"):
+        # the Krylov paths compute tr log A factor by factor with real arithmetic for real operators: they are exercised
+        # on trees all of whose factors are positive definite (no A^H A of indefinite A, no negative scalars)
+        g2 = gen.TraitGen(draw, avoid=AVOID | {"fft", "hh", "T"})
+        tree = g2.t_pd(n, depth)
+        trait = "pd"
+        if sc is not None:
+            tree = {"k": "scale", "c": {"t": "float", "v": sc}, "side": "l", "ch": [tree]}
     if la in ("Cholesky", "Lanczos") and trait != "pd":
-        la = g.pick(["omitted", "Auto", "LU", "Arnoldi"])
+        la = g.pick(["omitted", "Auto", "LU"])
     return {"tree": tree, "log_alg": la, "trace_alg": g.pick(TR_ALGS), "declare": g.boolean(), "fn": g.pick(["slogdet", "slogdet", "logdet"])}
 
 
